@@ -69,8 +69,8 @@ type model struct {
 	// grace window around expiry instants (C06): within it both answers are accepted
 	grace time.Duration
 	// over a slow network a relative TTL starts to count when the writing command reaches
-	// the server: a record outlives its ExpiresAt by the latency of the commands that
-	// follow the computation of the TTL (one for SET/SETNX, three for the CAS transaction)
+	// the server: a record outlives its ExpiresAt by one one-way trip (the transport delivers
+	// the commands of one pipeline or transaction together)
 	LagWrite, LagCas time.Duration
 	// OwnStall: how long the calling goroutine has been stalled by the scheduler during the
 	// operation being judged (a slow thread is legal; its own slowness is added to every bound
